@@ -16,7 +16,7 @@ import os
 from .. import core, tlc
 
 LEVEL = "model_checking"
-KINDS = ["epath", "status", "typed", "logix", "ucsend", "frames"]
+KINDS = ["epath", "status", "typed", "logix", "ucsend", "frames", "fwd"]
 
 
 def _replay(v):
@@ -110,7 +110,8 @@ def _replay(v):
                 chk.pop("status_ext", None)
             if k == "msp":
                 chk = {"service": 0x0A}
-            g = parsed("Logix.parser", obj.parser, v["b"], chk, None)
+            parsed("Logix.parser (first)", obj.parser, v["b"], chk, None)
+            g = parsed("Logix.parser (same parser again)", obj.parser, v["b"], chk, None)
             if g is not None and k != "msp":
                 same("Logix.produce(parse)", logix.Logix.produce(g))
             if k == "msp":
@@ -123,6 +124,41 @@ def _replay(v):
                     wantm = [bytes(bytearray(x)) for x in v["rb"]]
                     if got != wantm:
                         out.append("bundle reply members located differently: %r != %r" % (got, wantm))
+        elif k == "fwd":
+            f = v["f"]
+            u32 = lambda b: int.from_bytes(bytes(bytearray(b)), "little")
+
+            def side(c):
+                return {"connection_ID": u32(c["id"]), "RPI": u32(c["rpi"]), "size": c["size"], "variable": c["variable"],
+                        "priority": c["priority"], "type": c["type"], "redundant": c["redundant"]}
+            fo = {"priority_time_tick": f["prio"], "timeout_ticks": f["ticks"], "O_T": side(f["ot"]), "T_O": side(f["to"]),
+                  "connection_serial": f["serial"], "O_vendor": f["vendor"], "O_serial": u32(f["oserial"]),
+                  "connection_timeout_multiplier": f["mult"], "transport_class_triggers": f["trigger"],
+                  "connection_path": W.path_py(f["cpath"])}
+            m = {"path": {"segment": [{"class": 6}, {"instance": 1}]}, "forward_open": fo}
+            CM = device.Connection_Manager
+            same("Connection_Manager.produce(forward open)", CM.produce(W.dd(m)))
+            device.lookup_reset()
+            cm = CM(instance_id=1)
+            chk = {"service": 0x5B if v["large"] else 0x54, "forward_open": {k2: x for k2, x in fo.items() if k2 not in ("O_T", "T_O")}}
+            chk["forward_open"]["O_T"] = dict(side(f["ot"]), large=v["large"])
+            chk["forward_open"]["T_O"] = dict(side(f["to"]), large=v["large"])
+            g = parsed("Connection_Manager.parser(forward open)", cm.parser, v["b"], chk, None)
+            if g is not None:
+                same("Connection_Manager.produce(parse)", CM.produce(g))
+            # replies and forward close: parse, recover the identifying fields, regenerate
+            ids = {"connection_serial": f["serial"], "O_vendor": f["vendor"], "O_serial": u32(f["oserial"])}
+            for label, octs, chk2 in (
+                    ("forward open reply", v["rpy"], {"status": 0, "forward_open": dict(ids, O_T={"connection_ID": u32(f["ot"]["id"]), "API": 1000000},
+                                                                                         T_O={"connection_ID": u32(f["to"]["id"]), "API": 2000000})}),
+                    ("forward open failure", v["fail"], {"status": 1, "status_ext": {"size": 1, "data": [256]}, "forward_open": ids}),
+                    ("forward close", v["close"], {"service": 0x4E, "forward_close": dict(ids, priority_time_tick=f["prio"], timeout_ticks=f["ticks"],
+                                                                                             connection_path=W.path_py(f["cpath"]))}),
+                    ("forward close reply", v["closerpy"], {"status": 0, "forward_close": ids})):
+                want = bytes(bytearray(octs))
+                g2 = parsed(label, cm.parser, octs, chk2, None)
+                if g2 is not None:
+                    same(label + " produce(parse)", CM.produce(g2))
         elif k == "ucsend":
             m = {"service": 0x52, "path": {"segment": [{"class": 6}, {"instance": 1}]}, "priority": v["prio"],
                  "timeout_ticks": v["ticks"], "request": {"input": bytearray(v["msg"])}, "route_path": W.path_py(v["route"])}
